@@ -88,10 +88,18 @@ pub fn run_check<'s, I: Kind<'s>, R: Er<'s, I>>(p: &BP<'s, I, R>, input: I) -> I
 }
 
 /// ParseResult-level contract (C03), checked on the raw ParseResult.
-pub fn result_contract<T, E>(r: chumsky::ParseResult<T, E>) -> Result<(bool, usize), String> {
+pub fn result_contract<T: Clone, E: Clone>(r: chumsky::ParseResult<T, E>) -> Result<(bool, usize), String> {
     let ho = r.has_output();
     let he = r.has_errors();
     let n = r.errors().len();
+    // the accessors describe one and the same result
+    if r.output().is_some() != ho || r.clone().into_output().is_some() != ho {
+        return Err(format!("has_output() = {} but output() / into_output() say otherwise", ho));
+    }
+    let (o2, e2) = r.clone().into_output_errors();
+    if o2.is_some() != ho || e2.len() != n || r.clone().into_errors().len() != n || r.errors().count() != n {
+        return Err(format!("into_output_errors() / into_errors() / errors() disagree: has_output {} vs {}, {} errors vs {}", ho, o2.is_some(), n, e2.len()));
+    }
     if he != (n > 0) {
         return Err(format!("has_errors() = {} with {} errors", he, n));
     }
